@@ -28,7 +28,7 @@ structure RunAt (ns need : Nat) (full : List Nat) (start len : Nat) (a : Nat) (p
   enough : need ≤ len * ns
   tight : (len - 1) * ns < need
 
-theorem searchArrayGo_spec (ns need : Nat) (hns : ns < need) (xs : List Nat) :
+theorem searchArrayGo_specL (ns need : Nat) (hns : ns < need) (xs : List Nat) :
     ∀ (pfx0 : List Nat) (a len' last start idx s l : Nat),
       pfx0.length = start → idx = start + (len' + 1) → last = a + len' * ns → (len' + 1) * ns < need →
       searchArrayGo ns need xs start (len' + 1) last idx = some (s, l) →
@@ -67,20 +67,20 @@ theorem searchArrayGo_spec (ns need : Nat) (hns : ns < need) (xs : List Nat) :
         exact ⟨a', pfx, sfx, by rw [e]; exact hr⟩
 
 /-- specification of `list_search_array`: a successful search (for `need > ns`) splits the list around the run found -/
-theorem searchArray_spec (ns need : Nat) (hns : ns < need) (full : List Nat) (s l : Nat)
+theorem searchArray_specL (ns need : Nat) (hns : ns < need) (full : List Nat) (s l : Nat)
     (h : searchArray ns need full = some (s, l)) :
     ∃ a pfx sfx, RunAt ns need full s l a pfx sfx := by
   cases full with
   | nil => simp [searchArray] at h
   | cons x xs =>
     unfold searchArray at h
-    have := searchArrayGo_spec ns need hns xs [] x 0 x 0 1 s l rfl rfl (by simp) (by simpa using hns) h
+    have := searchArrayGo_specL ns need hns xs [] x 0 x 0 1 s l rfl rfl (by simp) (by simpa using hns) h
     simpa [blockNodes] using this
 
 /-- the bounds of the result -/
 theorem searchArray_bounds (ns need : Nat) (hns : ns < need) (full : List Nat) (s l : Nat)
     (h : searchArray ns need full = some (s, l)) : s + l ≤ full.length ∧ 1 ≤ l := by
-  obtain ⟨a, pfx, sfx, hr⟩ := searchArray_spec ns need hns full s l h
+  obtain ⟨a, pfx, sfx, hr⟩ := searchArray_specL ns need hns full s l h
   have := congrArg List.length hr.split
   simp only [List.length_append, blockNodes_length] at this
   have h1 := hr.start
